@@ -34,9 +34,9 @@ REQUIRED_REACH = ['schedules:single-preemption', 'schedules:single-preemption-on
 NSHARDS = 16
 KINDS = ['echo', 'echo2', '404', '405', 'fallthrough', 'boom', 'redirect', 'render', 'httperr']
 # two routes on one path with different methods: a request neither admits makes the dispatcher collect both method sets
-KINDS_MORE = ['thing-delete', 'thing-post', 'thing-get']
+KINDS_MORE = ['thing-delete', 'thing-post', 'thing-get', 'param']
 EXTRA_PAIRS = [('thing-delete', 'thing-post'), ('thing-post', 'thing-delete'), ('thing-delete', 'thing-delete'), ('thing-delete', 'thing-get'),
-               ('thing-post', 'echo'), ('405', 'thing-delete'), ('thing-delete', 'fallthrough')]
+               ('thing-post', 'echo'), ('405', 'thing-delete'), ('thing-delete', 'fallthrough'), ('param', 'param'), ('param', 'echo'), ('echo', 'param')]
 
 
 def build_app():
@@ -62,7 +62,7 @@ def build_app():
     def echo(request, x, who, stamp, _dispatch_state, _route):
         body = {'tok': request.headers.get('X-Token'), 'x': x, 'who': who, 'stamp': stamp, 'path': request.path,
                 'q': request.query_string.decode('latin-1'), 'pp': request.path_params, 'route': _route.pattern,
-                'ds_exc': len(_dispatch_state.exceptions), 'rid': request.request_id}
+                'ds_exc': len(_dispatch_state.exceptions), 'rid': [request.request_id, request.request_guid]}
         return Response(json.dumps(body, sort_keys=True), mimetype='application/json')
 
     def fall_first(request, x):
@@ -70,7 +70,7 @@ def build_app():
 
     def fall_second(request, x, who, _dispatch_state):
         return Response(json.dumps({'tok': request.headers.get('X-Token'), 'x': x, 'who': who, 'second': True,
-                                    'seen_exc': [e.detail for e in _dispatch_state.exceptions], 'rid': request.request_id},
+                                    'seen_exc': [e.detail for e in _dispatch_state.exceptions], 'rid': [request.request_id, request.request_guid]},
                                    sort_keys=True), mimetype='application/json')
 
     def boom(request, x):
@@ -91,7 +91,13 @@ def build_app():
             r.headers['X-Err-Token'] = request.headers.get('X-Token', '-')
             r.headers['X-Err-Route'] = _route.pattern
             return r
-    routes = [Route('/echo/<x>', echo, methods=['GET']),
+    from clastic.middleware import GetParamMiddleware
+
+    def param(request, who, count, page):
+        return Response(json.dumps({'tok': request.headers.get('X-Token'), 'who': who, 'count': count, 'page': page}, sort_keys=True),
+                        mimetype='application/json')
+    routes = [Route('/param', param, middlewares=[GetParamMiddleware({'count': int, 'page': str})]),
+              Route('/echo/<x>', echo, methods=['GET']),
               Route('/fall/<x>', fall_first), Route('/fall/<x>', fall_second),
               Route('/boom/<x>', boom), Route('/branch/', branch), Route('/render/<x>', ctx, render_basic),
               Route('/err/<x>', httperr), Route('/only-get', lambda: Response('x'), methods=['GET']),
@@ -114,6 +120,12 @@ def make_request(kind, tok):
         return ('POST', '/only-get', 'k=' + tok, h)
     if kind == 'fallthrough':
         return ('GET', '/fall/%s' % tok, '', h)
+    if kind == 'param':
+        # query parameters picked up by a built-in middleware: some requests send both, some one, some none, some junk
+        c = zlib.crc32(tok.encode()) % 5
+        q = ['count=%d&page=p-%s' % (zlib.crc32(tok.encode()) % 97, tok), 'page=only-%s' % tok, '', 'count=many&page=%s' % tok,
+             'count=%d' % (zlib.crc32(tok.encode()) % 89)][c]
+        return ('GET', '/param', q, h)
     if kind.startswith('thing-'):
         return (kind[6:].upper(), '/thing', 'k=' + tok, h)
     if kind == 'boom':
@@ -311,12 +323,16 @@ def stress(cx, rng, nthreads, per_thread):
 
 
 def check_rids(cx):
-    seen = set()
-    dup = [r for r in cx.rids if r in seen or seen.add(r)]
+    """both identifiers the framework assigns: the counter (request_id) and the token derived from it (request_guid)"""
     cx.sh.notes['request_ids'] = len(cx.rids)
-    if dup:
-        cx.sh.violation('C12/duplicate-request-id', '%d duplicate request ids among %d (e.g. %r)' % (len(dup), len(cx.rids), dup[:5]),
-                        {'mode': 'rids'})
+    for which, idx in (('request_id', 0), ('request_guid', 1)):
+        vals = [r[idx] if isinstance(r, (list, tuple)) else r for r in cx.rids]
+        seen = set()
+        dup = [r for r in vals if r in seen or seen.add(r)]
+        if dup:
+            cx.sh.violation('C12/duplicate-request-id', '%d duplicate %s values among %d (e.g. %r)' % (len(dup), which, len(vals), dup[:5]),
+                            {'mode': 'rids'})
+            return
 
 
 def plan(tier, seed):
